@@ -17,6 +17,7 @@ META = {
     'assumptions': ['instrumentation entry points are called in a well-nested way'],
     'technique': 'static analysis: who-may-write field rule + call dominance + sibling field-set agreement + writer/reader (accumulator vs enumerator) agreement on edge kinds over LLVM IR',
 }
+META['explanation'] += " The candidate critical path through a child is chain prefix + child path, the section's path the maximum of that and the chain, and every counter accumulation loop spans the whole array (C18.3)."
 INFO = 'dr_dag_node_info.'
 SUMMARY = ['t_1', 't_inf', 'logical_node_counts', 'logical_edge_counts']
 WRITERS = {'dr_accumulate_stats', 'dr_end_interval_'}
